@@ -37,7 +37,8 @@
 use std::fmt::Write;
 
 use chrono::{
-    DateTime, Datelike, FixedOffset, Local, Months, NaiveDate, NaiveDateTime, NaiveTime, TimeZone,
+    DateTime, Datelike, FixedOffset, Local, Months, NaiveDate, NaiveDateTime, NaiveTime, Offset,
+    TimeZone,
     Timelike,
 };
 
@@ -232,8 +233,14 @@ fn naive_to_fixed(datetime: NaiveDateTime) -> Result<DateTime<FixedOffset>, Nati
         .ok_or(NativeError::from("invalid datetime value"))
 }
 
-fn fixed_to_naive(datetime: DateTime<FixedOffset>) -> NaiveDateTime {
-    Local.from_utc_datetime(&datetime.naive_utc()).naive_local()
+fn fixed_to_naive(datetime: DateTime<FixedOffset>) -> Result<NaiveDateTime, NativeError> {
+    let local = Local.from_utc_datetime(&datetime.naive_utc());
+
+    // `naive_local()` panics if the local time is outside of the representable range
+    local
+        .naive_utc()
+        .checked_add_offset(local.offset().fix())
+        .ok_or(NativeError::from("datetime out of range"))
 }
 
 /// Parses a [RFC 2822](https://www.rfc-editor.org/rfc/rfc2822) string
@@ -252,7 +259,7 @@ pub fn date_from_rfc2822(params: &[Value]) -> NativeResult {
             let datetime = DateTime::parse_from_rfc2822(value)
                 .map_err(|e| NativeError::from(e.to_string()))?;
 
-            Ok(Value::from(fixed_to_naive(datetime)))
+            Ok(Value::from(fixed_to_naive(datetime)?))
         }
         [_] => Err(NativeError::WrongParameterType),
         _ => Err(NativeError::WrongParameterCount(1)),
@@ -300,7 +307,7 @@ pub fn date_from_rfc3339(params: &[Value]) -> NativeResult {
             let datetime = DateTime::parse_from_rfc3339(value)
                 .map_err(|e| NativeError::from(e.to_string()))?;
 
-            Ok(Value::from(fixed_to_naive(datetime)))
+            Ok(Value::from(fixed_to_naive(datetime)?))
         }
         [_] => Err(NativeError::WrongParameterType),
         _ => Err(NativeError::WrongParameterCount(1)),
